@@ -292,6 +292,9 @@ func isNilFunc(x value) bool {
 
 func hParam(fr *frame, a []value) value {
 	name := concStr(fr, a[0])
+	if strings.HasPrefix(name, "NATIVE_") {
+		return int(fr.concInt(a[1])) // parameters that only apply to native replay
+	}
 	if v, ok := fr.i.st.w.eng.Opts.Params[name]; ok {
 		return v
 	}
